@@ -7,6 +7,17 @@ from framework import PropertyCheck
 NAMES = {"nop": 1, "readCounters": 2, "readAndClearCounters": 3, "getValue": 4}
 
 
+def _cb_args_rollover():
+    import bellows.types as t
+    return [t.EmberCounterType(0)]
+
+
+# NCP callbacks that may arrive between two feeds: one the application handles, two it ignores
+CALLBACKS = {1: [("counterRolloverHandler", _cb_args_rollover)],
+             2: [("stackTokenChangedHandler", lambda: [0x1234])],
+             3: [("counterRolloverHandler", _cb_args_rollover), ("childJoinHandler", lambda: [])]}
+
+
 class Check(PropertyCheck):
     pid = "C19"
     gen_files = ["GenApp", "GenWatchdogFn"]
@@ -16,7 +27,7 @@ class Check(PropertyCheck):
                 "(map (fun p => (ans_of (fst p), ans_of (snd p))) (snd c))))")
     rule = ("all outcome sequences up to a length bound over {ok, timeout, EZSP error} on the keep-alive command and "
             "on the free-buffer read, for protocol version 4 and 8 (exhaustive up to the bound), plus long runs "
-            "crossing the counter-clear period; non-trivial = contains at least one failure; distinct by (version, sequence)")
+            "crossing the counter-clear period, and failure runs with NCP callbacks delivered between the feeds; non-trivial = contains at least one failure; distinct by (version, sequence)")
     assumptions = ["outcomes other than success / asyncio.TimeoutError / EzspError are outside the property"]
 
     def setup(self):
@@ -47,6 +58,14 @@ class Check(PropertyCheck):
         for n in range(0, l8 + 1):
             for seq in itertools.product(outs8, repeat=n):
                 cases.append((8, list(seq)))
+        # callbacks of the NCP between the feeds of a failure run (the commands fail, the NCP still pushes callbacks)
+        l_cb = 6 if tier == "quick" else 7
+        for v in (4, 8):
+            for seq in itertools.product([(0, 0), (1, 0), (2, 0)], repeat=l_cb):
+                if tier == "quick" and sum(1 for a in seq if a[0]) < 5:
+                    continue
+                for j in range(1, l_cb):
+                    cases.append((v, list(seq), {j: 1 + (j + len(cases)) % 3}))
         for v in (4, 5, 8, 13, 14):
             for _ in range(2 if tier == "quick" else 10):
                 p_fail = rng.choice([0.1, 0.5, 0.8])
@@ -57,7 +76,8 @@ class Check(PropertyCheck):
     def run_impl(self, case):
         import bellows.types as t
         from bellows.exception import EzspError, InvalidCommandError
-        v, seq = case
+        v, seq = case[:2]
+        inject = case[2] if len(case) > 2 else {}
         app = self._app(v)
         # what _watchdog_loop does when it starts
         app._watchdog_failures = 0
@@ -92,7 +112,14 @@ class Check(PropertyCheck):
         out = []
 
         async def go():
-            for a in seq:
+            for k, a in enumerate(seq):
+                # callbacks of the NCP delivered between two feeds (the NCP keeps talking while its commands fail): they are
+                # no keep-alive outcomes
+                for name, args in CALLBACKS.get(inject.get(k), []):
+                    try:
+                        app.ezsp_callback_handler(name, list(args()))
+                    except BaseException as e:  # noqa
+                        out.append(["callback:" + type(e).__name__, []])
                 cur["a"] = a
                 del seen[:]
                 try:
@@ -105,12 +132,13 @@ class Check(PropertyCheck):
         return out
 
     def describe(self, case):
-        v, seq = case
-        return {"version": v, "outcomes": "".join("OTE"[a] + ("" if b == 0 else "-te?"[b]) for a, b in seq)[:120],
+        v, seq = case[:2]
+        return {"callbacks_before_feed": {str(k + 1): [n for n, _ in CALLBACKS[c]] for k, c in (case[2] if len(case) > 2 else {}).items()},
+                "version": v, "outcomes": "".join("OTE"[a] + ("" if b == 0 else "-te?"[b]) for a, b in seq)[:120],
                 "len": len(seq)}
 
     def model_input(self, case):
-        v, seq = case
+        v, seq = case[:2]
         return f"({v}, [" + ";".join(f"({a},{b})" for a, b in seq) + "])"
 
     def obs_to_z(self, case, obs):
@@ -124,7 +152,9 @@ class Check(PropertyCheck):
     def monitor(self, case, obs):
         """independent statement of the property on the implementation's own trace"""
         import bellows.zigbee.application as A
-        v, seq = case
+        v, seq = case[:2]
+        if any(str(r[0]).startswith("callback:") for r in obs):
+            return f"an NCP callback raised out of the application's callback handler: {[r[0] for r in obs if str(r[0]).startswith('callback:')][:1]}"
         streak = 0
         for k, ((a1, a2), (raised, cmds)) in enumerate(zip(seq, obs), 1):
             failed = a1 != 0 or (v != 4 and a2 in (1, 2))
@@ -149,6 +179,8 @@ class Check(PropertyCheck):
         return "watchdog:" + why.split(":")[0]
 
     def shrink(self, case, still_fails):
+        if len(case) > 2:
+            return case
         v, seq = case
         seq = list(seq)
         changed = True
